@@ -34,9 +34,26 @@ def run (v : Variant) : List String → String
     | none => "bad-op"
   | _ => "bad-op"
 
+/-- judge: the same ops decided by the statement's own rule (`specDecide`) -/
+def runSpec : List String → String
+  | "cg" :: allowed :: sealed :: target :: ctype :: key :: rest =>
+    match parseBool sealed, parseReq rest with
+    | some sl, some p =>
+      let post : Post := if !knownType ctype then .refused 400 else if key == "ok" then .ok else .refused 400
+      outcomeStr (specDecide p.cfg (parseAllowed allowed) { req := p.req, sealed := sl, target := target, post := post })
+    | _, _ => "bad-op"
+  | "cfgcg" :: allowed :: _webui :: target :: ctype :: key :: rest =>
+    match parseReq rest with
+    | some p =>
+      let post : Post := if !knownType ctype then .refused 400 else if key == "ok" then .ok else .refused 400
+      outcomeStr (specDecide p.cfg (parseAllowed allowed) { req := p.req, sealed := false, target := target, post := post })
+    | none => "bad-op"
+  | _ => "bad-op"
+
 def handler (mode : String) : Option Handler :=
   if mode == "model" then some (.pure (run fixed))
   else if mode == "model-asfound" then some (.pure (run asFound))
+  else if mode == "judge" then some (.pure runSpec)
   else none
 
 end KM.Driver.C01
